@@ -51,6 +51,10 @@ fn parse_scheme_line(w: &[&str]) -> Option<SchemeSpec> {
             "a" => 1,
             "b" => 2,
             "c" => 3,
+            "d" => 4,
+            "e" => 5,
+            "f" => 6,
+            "g" => 7,
             _ => return None,
         },
         max_depth: w[2].parse().ok()?,
@@ -120,6 +124,49 @@ impl Core {
                 self.ctxspec = parse_ctx_line(&w, self.spec.fields.len())?;
                 self.ctx = None;
                 Some("ok".into())
+            }
+            "ctxmut" => {
+                // operations on the LIVE context (the `ctx` line builds a fresh one):
+                //   ctxmut clear              ExecutionContext::clear()
+                //   ctxmut set <vals> <sets>  set these values / add these members, keep the rest
+                self.ctx();
+                let (spec, scheme) = (&self.spec, &self.scheme);
+                match *w.get(1)? {
+                    "clear" if w.len() == 2 => {
+                        let live = self.ctx.as_mut().unwrap();
+                        core::no_panic(std::panic::AssertUnwindSafe(|| live.clear()))?;
+                        self.ctxspec = CtxSpec { values: vec![None; spec.fields.len()], sets: vec![] };
+                        Some("ok".into())
+                    }
+                    "set" => {
+                        let add = parse_ctx_line(&w[1..], spec.fields.len())?;
+                        let live = self.ctx.as_mut().unwrap();
+                        let r = core::no_panic(std::panic::AssertUnwindSafe(|| {
+                            for (i, v) in add.values.iter().enumerate() {
+                                if let Some(v) = v {
+                                    live.set_field_value(scheme.get_field(&spec.fields[i].name).unwrap(), v.clone())
+                                        .expect("well-typed value");
+                                }
+                            }
+                            for (li, name, members) in &add.sets {
+                                let list = scheme.get_list(&spec.lists[*li].0).unwrap();
+                                let m = live.get_list_matcher_mut(list);
+                                if let Some(sm) = m.as_any_mut().downcast_mut::<crate::funcs::SetsMatcher>() {
+                                    sm.sets.entry(name.clone()).or_default().extend(members.iter().map(crate::codec::val_str));
+                                }
+                            }
+                        }));
+                        r?;
+                        for (i, v) in add.values.into_iter().enumerate() {
+                            if v.is_some() {
+                                self.ctxspec.values[i] = v;
+                            }
+                        }
+                        self.ctxspec.sets.extend(add.sets);
+                        Some("ok".into())
+                    }
+                    _ => None,
+                }
             }
             "parse" | "parsev" => {
                 // both routes to a configured parser must give the same verdict
